@@ -2,6 +2,7 @@
 import sys, math
 from fractions import Fraction
 from common import *  # noqa
+import seq_common as seqc
 
 PID = 'C06'
 ROUTINES = ['randmio_und_signed', 'randmio_dir_signed', 'null_model_und_sign', 'null_model_dir_sign']
@@ -269,6 +270,83 @@ def gen_cases(rs, tier):
     return cases
 
 
+def explicit_sequences(rs, tier):
+    """short hand-written call sequences run in one fresh process each: sibling routines on equal-size inputs in mixed
+    order, an option away from its default followed by the default"""
+    seqs = []
+    for n in ((4, 6, 8) if tier != 'thorough' else (4, 5, 6, 7, 8, 9, 10, 12)):
+        def mk(r, **kw):
+            und = r in UND
+            for _ in range(50):
+                W = signed_graph(rs, n, float(rs.choice([.6, .9, 1.0])), float(rs.choice([.3, .5])), und)
+                if (W > 0).any() and (W < 0).any():
+                    break
+            c = {'routine': r, 'W': W.tolist(), 'seed': int(rs.randint(2 ** 31)), 'itr': 1, 'seq': True}
+            if r in NULL:
+                c['freq'] = .5
+            c.update(kw)
+            return c
+        seqs.append([mk('null_model_dir_sign'), mk('null_model_und_sign')])
+        seqs.append([mk('null_model_und_sign'), mk('null_model_dir_sign'), mk('null_model_und_sign', freq=0)])
+        seqs.append([mk('randmio_dir_signed'), mk('null_model_dir_sign', freq=1), mk('randmio_und_signed'), mk('null_model_und_sign', freq=.1)])
+        seqs.append([mk('null_model_und_sign', itr=0, freq=1), mk('null_model_und_sign', itr=5, freq=.1), mk('null_model_dir_sign', itr=0, freq=0),
+                     mk('null_model_dir_sign', itr=5, freq=.1), mk('null_model_und_sign')])
+        seqs.append([mk('randmio_und_signed', itr=3), mk('randmio_und_signed', itr=0), mk('randmio_dir_signed', itr=2), mk('randmio_dir_signed', itr=0)])
+    return seqs
+
+
+def gen_probes(rs, tier):
+    """object-reuse probes (common.reuse_probe): same routine twice on the same array object re-weighted in place, a sibling
+    routine called on the shared object in between, the returned array edited by the caller before the second call"""
+    probes = []
+    total = 52 if tier != 'thorough' else 500
+    kinds = ('same', 'pair', 'edit-returned')
+    while len(probes) < total:
+        r = ROUTINES[len(probes) % 4]; und = r in UND
+        n = int(rs.randint(4, 9))
+        W = signed_graph(rs, n, .7, .5, und)
+        if not ((W > 0).sum() >= 2 and (W < 0).sum() >= 2):
+            continue
+        nz = np.argwhere(W != 0); i, j = (int(x) for x in nz[rs.randint(len(nz))])
+        newval = float(np.sign(W[i, j]) * (abs(W[i, j]) % 9 + 1))
+        pr = {'probe': True, 'kind': kinds[(len(probes) // 4) % 3], 'routine': r, 'W': W.tolist(), 'cell': [i, j], 'newval': newval,
+              'itr': int(rs.choice([0, 1, 2])), 'seed': int(rs.randint(2 ** 31))}
+        if r in NULL:
+            pr['freq'] = FREQ_GRID[int(rs.randint(len(FREQ_GRID)))]
+        if pr['kind'] == 'pair':
+            pr['other'] = [x for x in ROUTINES if (x in UND) == und and x != r][0]
+        probes.append(pr)
+    return probes
+
+
+def run_probe(pr):
+    bct = import_bct()
+    r = pr['routine']; und = r in UND
+    f = getattr(bct, r)
+    tail = (pr['itr'], pr['freq']) if r in NULL else (pr['itr'],)
+    if pr['kind'] == 'same':
+        def fn(W, seed=None):
+            return f(W, *tail, seed=seed)
+    elif pr['kind'] == 'pair':
+        g = getattr(bct, pr['other']); gtail = (1, .5) if pr['other'] in NULL else (1,)
+
+        def fn(W, seed=None):
+            g(W, *gtail, seed=seed)
+            return f(W, *tail, seed=seed)
+    else:
+        def fn(W, seed=None):
+            out = f(W, *tail, seed=seed)
+            out[0][...] = out[0] + 1          # the caller edits the returned array in place
+            return f(W, *tail, seed=seed)
+
+    def mutate(args):
+        W = args[0]; i, j = pr['cell']
+        W[i, j] = pr['newval']
+        if und:
+            W[j, i] = pr['newval']
+    return reuse_probe(fn, [np.array(pr['W'], dtype=float)], mutate, t=5.0, seed=pr['seed'])
+
+
 PREDS = {'pos-out-degree', 'neg-out-degree', 'pos-in-degree', 'neg-in-degree', 'pos-weight-multiset', 'neg-weight-multiset',
          'diagonal', 'symmetry', 'zero-rewirings-identity', 'correlation', 'input-modified', 'shape'}
 
@@ -287,20 +365,34 @@ def main():
                        'np.argsort results inside the null models are taken from the real run as an oracle (recorded through a proxy of the module global np, /repo unedited); '
                        'the model checks each is a permutation, which is all the theorems use',
                        'a call that hits the watchdog is re-tried once with 10x the budget; > 5 % timeouts or no normal return for a routine is a violation',
+                       'history: the shuffled cases run in batches of 25, each batch sequentially in a fresh process, plus explicit sequences of sibling routines on '
+                       'equal-size inputs; a failure is reported with the calls that preceded it in its process (replayed as history + case); '
+                       'object-reuse probes (common.reuse_probe) on the same array object: re-weighted in place, shared with a sibling routine, returned array edited',
                        'randmio_*_signed are called on empty-diagonal input (property quantifier); the null models clear the diagonal themselves']
     ok = ck.lean_gate(['BctVerif.Props.C06'], extra_modules=['BctVerif.Model.Signed'])
     if ck.tier == 'thorough' and ok:
         ck.leanchecker(['BctVerif.Props.C06', 'BctVerif.Model.Signed'])
     if ck.replay:
         rp = json.load(open(ck.replay))
-        if 'case' in rp:            # a violation replay: the failing input
-            cases = [rp['case']['case']]
+        probes = []
+        if 'case' in rp and rp['case']['case'].get('probe'):
+            batches, probes = [], [rp['case']['case']]
+        elif 'case' in rp:            # a violation replay: the failing input preceded by the calls its process had made before
+            batches = [seqc.replay_batch(rp)]
         else:                       # a 'no longer checks' replay: the correspondence cases named in it
-            cases = [b['detail']['case'] for b in rp.get('no_longer_checks', [])
-                     if isinstance(b.get('detail'), dict) and 'case' in b['detail']]
+            batches = [[b['detail']['case'] for b in rp.get('no_longer_checks', [])
+                        if isinstance(b.get('detail'), dict) and 'case' in b['detail']]]
     else:
-        cases = gen_cases(ck.rs, ck.tier)
-    results = pmap(run_case, cases)
+        # history across calls: shuffled batches, one fresh process per batch, plus explicit sequences
+        batches = seqc.make_batches(ck.rs, gen_cases(ck.rs, ck.tier), 25, explicit_sequences(ck.rs, ck.tier))
+        probes = gen_probes(ck.rs, ck.tier)
+    cases, results, hist = seqc.run_batches(run_case, batches)
+    ck.count('batches', len(batches)); ck.count('explicit_sequence_cases', sum(1 for c in cases if c.get('seq')))
+    for pr, d in zip(probes, pmap(run_probe, probes)):
+        ck.count('reuse_probe:' + pr['kind'])
+        ck.case(nontrivial_key=digest(['probe', pr]))
+        if d is not None:
+            ck.violation(pr['routine'], 'result-depends-on-history', {'case': pr, 'probe': d}, {'routine': pr['routine']})
     lines, idx = [], []
     for n_, (c, r) in enumerate(zip(cases, results)):
         rt = c['routine']
@@ -321,14 +413,14 @@ def main():
         if c.get('malformed'):
             ck.count('malformed:' + c['malformed'])
             if rt == 'null_model_und_sign' and not (r['status'] == 'exc' and exc_kind(r['exc']) == 'BCTParamError'):
-                ck.violation(rt, 'rejects-asymmetric', {'case': c, 'status': r['status'], 'exception': r.get('exc')}, cond)
+                ck.violation(rt, 'rejects-asymmetric', {'case': c, 'history': hist[n_], 'status': r['status'], 'exception': r.get('exc')}, cond)
         elif r['status'] == 'exc':
-            ck.violation(rt, 'raises', {'case': c, 'exception': r['exc']}, cond)
+            ck.violation(rt, 'raises', {'case': c, 'history': hist[n_], 'exception': r['exc']}, cond)
             continue
         else:
             for pred, info in r['fails']:
                 if pred in PREDS:
-                    ck.violation(rt, pred, {'case': c, 'output': r.get('X'), 'r': r.get('r'), 'info': info}, cond)
+                    ck.violation(rt, pred, {'case': c, 'history': hist[n_], 'output': r.get('X'), 'r': r.get('r'), 'info': info}, cond)
         lines.append(lean_line(c, r)); idx.append(n_)
     # a routine that hangs or raises on (almost) every input must not pass silently
     for rt in ROUTINES:
